@@ -23,22 +23,22 @@ Section Final.
   Theorem proof_cannot_lie_l ver untrusted es p t :
     verify H ver (root_hash H t) untrusted es = ROk p ->
     Forall entry_wire es -> wf t -> bounded t ->
-    (forall k, agrees t k (plookup 0 k p) /\ agrees t k (plookup_go H 0 k p)) \/ collision H.
+    (forall k, agrees t k (plookup 0 k p) /\ agrees t k (plookup_go H true 0 k p)) \/ collision H.
   Proof.
     intros E F W B. destruct (verify_sound_l H Hlen _ _ _ _ _ E F B) as [P|C]; [|auto].
     destruct (plookup_go_prunes H Hlen p t P) as [G|C]; [|auto].
     left. intros k. split.
     - apply agrees_of_opt; [exact W|]. exact (plookup_prunes H Hlen p t 0%nat k P).
-    - apply agrees_of_opt; [exact W|]. exact (G 0%nat k).
+    - apply agrees_of_opt; [exact W|]. exact (G true 0%nat k).
   Qed.
 
-  Theorem plookup_go_sound_l p t d k :
+  Theorem plookup_go_sound_l p t fresh d k :
     prunes H p t ->
-    ((forall v, plookup_go H (N.of_nat d) k p = Found v -> lookup d k t = Some v) /\
-     (plookup_go H (N.of_nat d) k p = Absent -> lookup d k t = None)) \/ collision H.
+    ((forall v, plookup_go H fresh (N.of_nat d) k p = Found v -> lookup d k t = Some v) /\
+     (plookup_go H fresh (N.of_nat d) k p = Absent -> lookup d k t = None)) \/ collision H.
   Proof.
     intros P. destruct (plookup_go_prunes H Hlen p t P) as [G|C]; [|auto]. left.
-    destruct (G d k) as [E|E]; rewrite E.
+    destruct (G fresh d k) as [E|E]; rewrite E.
     - split; [intros v|]; discriminate.
     - destruct (lookup d k t); cbn; split; try intros v'; congruence.
   Qed.
@@ -72,8 +72,8 @@ Section Final.
   Theorem get_proof_complete_go_v0_l sib k t :
     (height t <= 129)%nat ->
     exists p, verify H 0 (root_hash H t) (root_hash H t) (build_get_proof H 0 sib k t) = ROk p /\
-              plookup_go H 0 k p <> Unknown /\
-              (plookup_go H 0 k p = of_opt (tlookup k t) \/ collision H).
+              plookup_go H true 0 k p <> Unknown /\
+              (plookup_go H true 0 k p = of_opt (tlookup k t) \/ collision H).
   Proof.
     intros Hh.
     destruct (get_proof_complete_l H Hlen 0 sib k t) as (p & Ev & _); [lia|exact Hh|].
@@ -85,7 +85,7 @@ Section Final.
     destruct (bytes_eqb (root_hash H t) (H [])) eqn:Z; subst p.
     - cbn [plookup_go]. split; [discriminate|].
       apply bytes_eqb_eq in Z. destruct (empty_root H t Z) as [->|C]; auto.
-    - pose proof (bgt_lookup_go H Hlen 0 sib k t eq_refl 0%nat) as E. cbn [N.of_nat] in E.
+    - pose proof (bgt_lookup_go H Hlen 0 sib k t eq_refl true 0%nat) as E. cbn [N.of_nat] in E.
       rewrite E. split; [|auto]. unfold tlookup. destruct (lookup 0 k t); discriminate.
   Qed.
 End Final.
